@@ -15,6 +15,15 @@ CHECKS = {
              "lexer for drop detection, junk-suffix metamorphic relation, sanitizers, bounded native stack). Finds violations; does not establish absence.",
         note="trusts ASan/UBSan and the harness lexer (common/parse_oracle.hpp); over-reads of exactly one byte past a std::string are invisible",
         design="4/C01"),
+    "C03": dict(
+        engine="hypothesis-runner",
+        category="exploration",
+        technique="model-based differential testing: grammar/type-directed program generation (Hypothesis) against an independent reference interpreter written in Python",
+        text="Generated closed programs over the core language (printed with minimal parentheses and random layout so that precedence and line-continuation "
+             "matter) are evaluated by the engine and by model/refchai.py; stdout, the rec() log, the final value (type-aware rendering) and the error "
+             "class are compared. About 10% of programs carry one injected fault to exercise the error class.",
+        note="the reference interpreter is mine (documented semantics, calibrated on the repaired tree: 0 disagreements over >50k programs); constructs it does not model are not generated (listed in evidence)",
+        design="4/C03"),
     "C05": dict(
         engine="rapidcheck+enumerator",
         category="exploration",
